@@ -30,6 +30,13 @@ pub fn note_panic(msg: &str, loc: &str) {
     let cur = CUR.try_with(|c| c.borrow().clone()).ok().flatten();
     if let Some((s, tid)) = cur {
         let mut g = s.lock();
+        if g.aborted.is_some() {
+            // The simulation is being torn down (threads are unwound where
+            // they stand, possibly inside a critical section of the code under
+            // test, which poisons its std mutexes): what panics from here on
+            // is a consequence of the teardown, not a finding.
+            return;
+        }
         let name = g.threads[tid].name.clone();
         g.panics.push((tid, name, msg.to_string(), loc.to_string()));
     }
